@@ -156,9 +156,14 @@ def draw_opts(sp, mode, label, ctor=None):
     if ctor is None:
         if mode == 'call':          # library defaults at construction, explicit values per call
             ck = {}
-        else:                       # 'ctor', 'full', 'override': values chosen at construction
-            ck = dict(nest_on_conflict=bool(sp.choose(2, label + '.ctor-nest')),
-                      trim_extensions=bool(sp.choose(2, label + '.ctor-trim')))
+        else:                       # 'ctor', 'full', 'override': each option omitted, True or False
+            ck = {}
+            n = tri[sp.choose(3, label + '.ctor-nest')]
+            t = tri[sp.choose(3, label + '.ctor-trim')]
+            if n is not None:
+                ck['nest_on_conflict'] = n
+            if t is not None:
+                ck['trim_extensions'] = t
     else:
         ck = ctor
     if mode in ('call', 'override'):    # explicit values per call ('override': after chosen ctor values)
@@ -253,13 +258,18 @@ def allowed_dirs(tree, rules):
     return ok
 
 
-def oracle(sp, rmap, root, tree, rules, call, nest, trim, prev, when):
-    new = snapshot(sp, rmap, when)
-    inst, _ = expected_instantiations(tree, rules)
+def _by_key(inst, trim):
     by_key = {}
     for ri, f in inst:
         key = split_ext(f)[0] if trim else f
         by_key.setdefault(key, []).append((ri, f))
+    return by_key
+
+
+def oracle(sp, rmap, root, tree, rules, call, nest, trim, prev, when):
+    new = snapshot(sp, rmap, when)
+    inst, _ = expected_instantiations(tree, rules)
+    by_key = _by_key(inst, trim)
 
     # -- nothing is added that does not correspond to a file or directory under a rule's directory
     okdirs = allowed_dirs(tree, rules)
@@ -453,6 +463,12 @@ def h_populate(sp, bits=(), present=('res',), rule_dirs=('res',), exts=((), ('.t
             if ('nest_on_conflict' in ck and kw.get('nest_on_conflict') is None) or (
                     'trim_extensions' in ck and kw.get('trim_extensions') is None):
                 sp.cover('option-falls-back')
+            if 'nest_on_conflict' not in ck and kw.get('nest_on_conflict') is None:
+                sp.cover('ctor-default-nest')       # documented default: nesting enabled
+                if any(len(v) > 1 for v in _by_key(inst, trim_i).values()) or ci:
+                    sp.cover('ctor-default-nest-clash')
+            if 'trim_extensions' not in ck and kw.get('trim_extensions') is None:
+                sp.cover('ctor-default-trim')       # documented default: extensions kept
             if root_at_call:
                 sp.cover('root-per-call')
             if any(r['direct'] for r in rules):
@@ -509,6 +525,9 @@ HARNESSES = {
 ALL_DIRS = ('res', 'res2', MISSING, NOTDIR)
 FACTORY_TAGS = (['built-by:' + k for k in FACTORY_KINDS] + ['not-a-directory:factory-' + k for k in FACTORY_KINDS]
                 + ['not-a-directory', 'missing-skipped', 'file-under-two-rules', 'clash-nest', 'clash-replace'])
+DEFAULT_TAGS = ['ctor-default-nest', 'ctor-default-nest-clash', 'ctor-default-trim']
+PASSING_TAGS = DEFAULT_TAGS + ['clash-nest', 'clash-replace', 'trim', 'option-falls-back', 'root-per-call',
+                               'rule-object-appended']
 FALLBACK_TAGS = ['fallback-after-override:%s:built-%s' % (o, b)
                  for o in ('nest_on_conflict', 'trim_extensions') for b in (True, False)]
 EVERY_BIT = ['res'] + FULL_BITS + ['other', 'other/x']
@@ -528,10 +547,10 @@ TIERS = {
                        present=('res', 'res/a.txt', 'res/sub'), rule_dirs=('res', 'res/sub'))),
         # how options, root, extra arguments and rules are handed over
         ('passing', dict(bits=('res/noext',), present=('res', 'res/a.txt', 'res/a.png'), exts=((),),
-                         opts='full', extras=4, styles=True)),
+                         opts='full', extras=4, styles=True), dict(required=PASSING_TAGS)),
         # same populator: call 1 overrides the options, call 2 leaves them out / passes None
         ('passing', dict(present=('res', 'res/a.txt', 'res/a.png', 'res/noext'), exts=((),), opts='override',
-                         second='full'), dict(required=FALLBACK_TAGS + ['second-population'])),
+                         second='full'), dict(required=FALLBACK_TAGS + DEFAULT_TAGS + ['second-population'])),
         # second population of the same map
         ('twice', dict(bits=('res/a.png', 'res/noext', 'res/sub/a.txt'),
                        present=('res', 'res/a.txt', 'res/sub'), second='call', mids=('res/z.txt',))),
@@ -549,10 +568,13 @@ TIERS = {
                              'res/d.txt/e.txt', 'res/sub', 'res/sub/a.txt', 'res/sub/a.png'),
                        present=('res',), rule_dirs=('res', 'res/sub'), n_rules=(1, 2))),
         ('passing', dict(bits=('res/noext',), present=('res', 'res/a.txt', 'res/a.png'), exts=((),),
-                         opts='full', extras=4, styles=True)),
-        ('passing', dict(bits=('res/noext',), present=('res', 'res/a.txt', 'res/a.png'),
+                         opts='full', extras=4, styles=True), dict(required=PASSING_TAGS)),
+        ('passing', dict(present=('res', 'res/a.txt', 'res/a.png', 'res/noext'), exts=((),), opts='override',
+                         second='full'), dict(required=FALLBACK_TAGS + DEFAULT_TAGS + ['second-population'])),
+        ('passing', dict(present=('res', 'res/a.txt', 'res/a.png', 'res/noext'),
                          opts='full', styles=True, second='full', mids=('res/z.txt',)),
-         dict(required=FALLBACK_TAGS + ['second-population', 'option-falls-back', 'root-per-call'])),
+         dict(required=FALLBACK_TAGS + DEFAULT_TAGS + ['second-population', 'option-falls-back',
+                                                        'root-per-call'])),
         ('twice', dict(bits=('res/a.txt', 'res/a.png', 'res/noext', 'res/sub', 'res/sub/a.txt', 'res/sub/deep',
                              'res/sub/deep/b.txt'),
                        present=('res',), rule_dirs=('res', 'res/sub'), n_rules=(1, 2), second='call',
@@ -585,8 +607,8 @@ BOUNDS = {
     'quick': 'trees: 168 trees over res/{a.txt,a.png,noext,sub/{a.txt,deep/{b.txt}}}, res2/{c.txt} (other/x '
              'present) x rule on res x file_exts in {(),{.txt}} x nest x trim; rules: 8 trees x all lists of 1-2 '
              'rules over {res,res2,missing,regular file} x 2 filters x nest x trim; names: a.tar.gz, directory '
-             'd.txt/, rule on res/sub; passing: options at construction x per call (None/True/False, omitted or '
-             'explicit None), root at construction or per call, 4 extra-argument shapes, add_rule or rule object; '
+             'd.txt/, rule on res/sub; passing: options at construction (omitted/True/False each) x per call (None/True/False, omitted '
+             'or explicit None), root at construction or per call, 4 extra-argument shapes, add_rule or rule object; '
              'factories: all lists of 1-2 rules x 2 filters x nest x trim x 4 factory kinds (function, class, '
              'functools.partial, object with __call__) on one tree; '
              'twice: 8 trees, second population with fresh options, optionally after adding res/z.txt; same populator: '
@@ -621,6 +643,8 @@ ASSUMPTIONS = [
     'the rule\'s factory is any callable: function, class, functools.partial and an object with __call__ (no '
     '__name__) are tried; with two rules the second uses the next kind in that list',
     'handle.parent / handle.key back-links are C11, not checked here',
+    'an option omitted at construction has the documented default (nest_on_conflict enabled, trim_extensions '
+    'False); constructing with none, one or both options is explored',
     'an option that is omitted or None in a call takes the value given at CONSTRUCTION (class docs), also when '
     'an earlier call of the same populator overrode it',
 ]
